@@ -79,6 +79,8 @@ def run_case(machine, case, keep_records=False):
     if res.violation is not None:
         log.add("VIOLATION", res.violation["oracle"], [res.violation["observable"], res.violation.get("step")])
     res.sim_time = world.clock.total_advance
+    if world.n_collisions_fired:
+        res.stats["fault_F6_name_collision_fired"] = res.stats.get("fault_F6_name_collision_fired", 0) + world.n_collisions_fired
     res.stats["order_choices"] = res.stats.get("order_choices", 0) + world.n_order_choices
     res.digest = log.digest()
     res.records = log.records
